@@ -6,33 +6,7 @@ import gen as G
 from C09 import CleanBase, parse_entries, frame, CLEAN_FIELDS, env_at_clean
 
 
-def nat_less(a, b):
-    """natural.Less (maruel/natural v1.1.1) re-implemented independently"""
-    def isd(c):
-        return 48 <= c <= 57
-    while True:
-        p = 0
-        m = min(len(a), len(b))
-        while p < m and not isd(a[p]) and not isd(b[p]) and a[p] == b[p]:
-            p += 1
-        a, b = a[p:], b[p:]
-        if not a:
-            return len(b) != 0
-        ia = 0
-        while ia < len(a) and isd(a[ia]):
-            ia += 1
-        ib = 0
-        while ib < len(b) and isd(b[ib]):
-            ib += 1
-        if ia > 0 and ib > 0:
-            an, bn = int(a[:ia]), int(b[:ib])
-            if an < 2 ** 64 and bn < 2 ** 64:
-                if an != bn:
-                    return an < bn
-                if ia != len(a) and ib != len(b):
-                    a, b = a[ia:], b[ib:]
-                    continue
-        return a < b
+nat_less = G.nat_less
 
 
 class C10(CleanBase):
